@@ -131,7 +131,8 @@ pub fn check(t: &Trace<'_>, out: &mut CaseOut) -> bool {
             let answered = resps.iter().find(|r| r.0 > p.ev).map(|r| r.1);
             let in_time = answered.is_some_and(|r| r < tp + RTT);
             let late = answered.is_none_or(|r| r > tp + RTT);
-            if answered == Some(tp + RTT) {
+            if answered.is_some_and(|r| r >= tp + RTT && r <= tp + RTT + w.timer_latency_us) {
+                // (with timers that fire late the client may or may not look first)
                 out.count("pingresp_exactly_at_the_bound", 1);
                 continue;
             }
@@ -148,6 +149,8 @@ pub fn check(t: &Trace<'_>, out: &mut CaseOut) -> bool {
                     Some(d) if d.t_ret > tp + RTT && busy_all.iter().any(|(a, b)| *a <= tp + RTT && *b >= d.t_ret) => out.count("timeouts_reported_when_the_transport_became_free", 1),
                     // (a task that the executor polled late cannot report earlier than that)
                     Some(d) if d.t_ret > tp + RTT && w.events.iter().any(|e| matches!(e, Ev::LateWake { conn, from, to } if *conn == ci.idx && *from <= tp + RTT && *to >= d.t_ret)) => out.count("timeouts_reported_by_a_late_polled_task", 1),
+                    // (timers fire up to the injected latency late)
+                    Some(d) if d.t_ret > tp + RTT && d.t_ret <= tp + RTT + w.timer_latency_us => out.count("timeouts_reported_within_the_timer_latency", 1),
                     Some(d) if d.t_ret > tp + RTT => out.violations.push(viol("C10", "C10/timeout-late", format!("conn {}: PINGREQ flushed at {}, Disconnected reported at {} ({} us after the bound) although the application was waiting all the time", ci.idx, tp, d.t_ret, d.t_ret - tp - RTT))),
                     Some(_) => out.count("timeouts_at_exactly_the_bound", 1),
                     None => {
@@ -161,6 +164,21 @@ pub fn check(t: &Trace<'_>, out: &mut CaseOut) -> bool {
             }
             if in_time {
                 out.count("pingresp_in_time", 1);
+            }
+        }
+        // (a') a PINGREQ is two bytes long: when one is due, a wait must not end with a local
+        // "does not fit" while the broker's limit admits two bytes and every queued packet
+        if w.timer_latency_us > 0 {
+            out.count("connections_with_late_timers", 1);
+        }
+        for o in ops.iter().filter(|o| matches!(o.kind, "poll" | "recv" | "pollreply") && matches!(o.outcome, Outcome::Err(ErrRepr::PacketTooLarge | ErrRepr::BufferTooSmall))) {
+            let Some(sn) = &o.snap_before else { continue };
+            let due = sn.next_ping.is_some_and(|np| np <= o.t_ret) && sn.ping_timeout.is_none();
+            let fits = ci.mps.is_none_or(|m| m >= 2 && sn.tx.retained.iter().all(|e| e.len <= m as usize) && (m >= 5 || (sn.tx.release.is_empty() && sn.tx.control.is_empty())));
+            let consumed = w.events[o.ev_call..o.ev_ret].iter().any(|e| matches!(e, Ev::Consumed { .. }));
+            if due && fits && !consumed && ka > 0 {
+                out.violations.push(viol("C10", "C10/ping-refused-locally", format!("conn {}: {} returned {:?} at {} with a PINGREQ due since {:?} and nothing queued that exceeds the broker's Maximum Packet Size {:?}: the two-byte PINGREQ was not sent", ci.idx, o.kind, o.outcome, o.t_ret, sn.next_ping, ci.mps)));
+                break;
             }
         }
         // (d) a wait that ends with Disconnected without an external cause needs an unanswered ping that is due
